@@ -24,9 +24,9 @@ struct Probe : fmt::Definition {
 struct RefField { int type; std::string constant; int width; bool left; };
 using FT = fmt::Definition::FieldTypes;
 // step kinds of the builder sequences
-enum Step { S_NONE, S_CONST, S_LEVEL, S_CLASS, S_LINE, S_TEXT, S_ERRNBR, S_FUNC, S_FILE, S_ATTR, S_PID, S_DATEFMT, S_TIME_MS };
+enum Step { S_NONE, S_CONST, S_LEVEL, S_CLASS, S_LINE, S_TEXT, S_ERRNBR, S_FUNC, S_FILE, S_ATTR, S_PID, S_DATEFMT, S_TIME_MS, S_EMPTY /* constant text of length 0 */ };
 int step_type(int s) {
-   switch (s) { case S_CONST: return (int) FT::constant; case S_LEVEL: return (int) FT::msgLevel; case S_CLASS: return (int) FT::msgClass; case S_LINE: return (int) FT::lineNbr; case S_TEXT: return (int) FT::text;
+   switch (s) { case S_EMPTY: return (int) FT::constant; case S_CONST: return (int) FT::constant; case S_LEVEL: return (int) FT::msgLevel; case S_CLASS: return (int) FT::msgClass; case S_LINE: return (int) FT::lineNbr; case S_TEXT: return (int) FT::text;
                 case S_ERRNBR: return (int) FT::errorNbr; case S_FUNC: return (int) FT::functionName; case S_FILE: return (int) FT::fileName; case S_ATTR: return (int) FT::attribute; case S_PID: return (int) FT::pid;
                 case S_DATEFMT: return (int) FT::date; default: return (int) FT::time_ms; }
 }
@@ -43,6 +43,7 @@ void build(fmt::Definition& def, std::vector<RefField>& ref, uint64_t seq, bool 
       if (s == S_DATEFMT) { c << fmt::formatString("%H"); constant = "%H"; }
       switch (s) {
       case S_CONST: c << std::string("abc"); constant = "abc"; break;
+      case S_EMPTY: c << std::string(""); constant = ""; break;
       case S_LEVEL: c << fmt::level; break;
       case S_CLASS: c << fmt::log_class; break;
       case S_LINE: c << fmt::line_nbr; break;
@@ -192,6 +193,20 @@ HX void hx_pid(uint64_t, uint64_t) {
    std::ostringstream o3; f.format(o3, m1);
    vs_assert(o1.str() == dec(p1) + "|one" && o3.str() == o1.str(), "the process id field shows the id of the process that created the message");
    vs_assert(o2.str() == dec(p2) + "|two", "a message created after the process id changed (fork) shows the new process id");
+}
+
+// (d3) a message keeps the second of its creation time: created 0..999 ms into a second (driver: 0, 250, 499, 500, 750, 999), the
+// date/time fields show that second, not the next one (also just before midnight / the end of a year)
+extern "C" void vs_setclock(uint64_t nanoseconds_since_epoch);
+HX void hx_clock(uint64_t base_seconds, uint64_t ms) {
+   ::setenv("TZ", "UTC0", 1); ::tzset();
+   vs_setclock(base_seconds * 1000000000ull + ms * 1000000ull);
+   detail::LogMsg m("file.cpp", "f", 1);
+   fmt::Definition def; { fmt::Creator c(def); c << fmt::date_time; }
+   std::ostringstream oss; fmt::Format f(def); f.format(oss, m);
+   time_t t = (time_t) base_seconds; char buf[64];
+   ::strftime(buf, sizeof(buf), "%Y-%m-%d %H:%M:%S", ::localtime(&t));
+   vs_assert(oss.str() == buf, "date/time fields show the second in which the message was created (no rounding up)");
 }
 
 // (e) hierarchies of message attribute objects: the innermost object that defines the attribute wins, outer objects are
